@@ -301,7 +301,16 @@ class ConvexPolygon(GeoBody):
 
     def __eq__(self, other):
         if isinstance(other, ConvexPolygon):
-            return hash(self) == hash(other)
+            # Compare the vertex sets themselves. Comparing the hashes made
+            # different polygons equal whenever their hashes collide, e.g. the
+            # triangles (-1,0,0),(0,1,0),(1,0,0) and (-2,0,0),(0,1,0),(1,0,0)
+            # (hash(-1.0) == hash(-2.0) in CPython).
+            if len(self.points) != len(other.points):
+                return False
+            for point in self.points:
+                if not any(point == other_point for other_point in other.points):
+                    return False
+            return True
         else:
             return False
 
@@ -329,7 +338,9 @@ class ConvexPolygon(GeoBody):
     def eq_with_normal(self, other):
         """return whether self equals with other considering the normal"""
         if isinstance(other, ConvexPolygon):
-            return self.hash_with_normal() == other.hash_with_normal()
+            return (
+                self == other and self.hash_with_normal() == other.hash_with_normal()
+            )
         else:
             return False
 
